@@ -12,7 +12,7 @@ BREAKS = [
     # (label, file, old text, new text, driver module:function, substring that must occur in a FAILED obligation id)
     ('check_imm_size: s08 range off by one', 'miasmx/arch/ia32_arch.py', 'elif size == s08 and -0x80 <= j < 0x80:', 'elif size == s08 and -0x80 <= j <= 0x80:', 'checks.C02smt', 'check_imm_size[s08,int]:post'),
     ('check_imm_size: u16 accepts negatives', 'miasmx/arch/ia32_arch.py', 'elif size == u16 and 0 <= i < 0x10000:', 'elif size == u16 and -1 <= i < 0x10000:', 'checks.C02smt', 'check_imm_size[u16,int]:post'),
-    ('ad_to_generic: disp8 form lost at -128', 'miasmx/arch/ia32_arch.py', '            if -128 <= j < 128:\n                to_add.append({x86_afs.imm:x86_afs.s08})\n        else:', '            if -128 < j < 128:\n                to_add.append({x86_afs.imm:x86_afs.s08})\n        else:', 'checks.C02smt', 'ad_to_generic['),
+    ('ad_to_generic: s08 form offered for 128', 'miasmx/arch/ia32_arch.py', '        if -128 <= j < 128:\n            to_add.append({x86_afs.imm:x86_afs.s08})\n        if 0 <= i <= 0xFF:', '        if -128 <= j <= 128:\n            to_add.append({x86_afs.imm:x86_afs.s08})\n        if 0 <= i <= 0xFF:', 'checks.C02smt', 'ad_to_generic['),
     ('rest_slice: gap start taken from the wrong bound', 'miasmx/expression/expression_eval_abstract.py', '            o.append((last, a))\n            last = b', '            o.append((last, a))\n            last = a', 'checks.C07smt', 'rest_slice['),
     ('dict_sub: operands swapped', 'miasmx/core/parse_ad.py', '            tmp[k] -= b[k]', '            tmp[k] = b[k] - tmp[k]', 'checks.C19smt', 'dict_sub['),
     ('dict_add: zero coefficient kept', 'miasmx/core/parse_ad.py', '        if tmp[k]==0:\n            del(tmp[k])', '        if tmp[k]==1:\n            del(tmp[k])', 'checks.C19smt', 'dict_add['),
@@ -20,6 +20,14 @@ BREAKS = [
     ('eval_op_mullo: product replaced by sum', 'miasmx/expression/expression_eval_abstract.py', '        ret_value =  (a*b) & mymaxuint[op_size]', '        ret_value =  (a+b) & mymaxuint[op_size]', 'checks.C06smt', 'eval_op_mullo['),
     ('eval_op_minus: operands swapped', 'miasmx/expression/expression_eval_abstract.py', '            ret_value = args[0] - args[1]', '            ret_value = args[1] - args[0]', 'checks.C06smt', 'eval_op_minus['),
     ('eval_op_inf: <= instead of <', 'miasmx/expression/expression_eval_abstract.py', '        ret_value =  [0, 1][int(args[0] < args[1])]', '        ret_value =  [0, 1][int(args[0] <= args[1])]', 'checks.C06smt', 'eval_op_inf['),
+    ('ExprMem.__eq__ ignores the segment', 'miasmx/expression/expression.py', 'return self.arg == a.arg and self.size == a.size and self.segm == a.segm', 'return self.arg == a.arg and self.size == a.size', 'checks.C15smt', 'ind:ExprMem.__eq__['),
+    ('ExprMem.visit forgets the segment child', 'miasmx/expression/expression.py', '            segm = self.segm.visit(cb)\n', '            segm = self.segm\n', 'checks.C15smt', 'ind:ExprMem.visit['),
+    ('ExprId.__hash__ uses a field that == ignores', 'miasmx/expression/expression.py', '        return hash(self.name)\n', '        return hash(self.name)^hash(self.is_term)\n', 'checks.C15smt', 'ind:ExprId.__hash__['),
+    ('ExprCond.copy shares a child', 'miasmx/expression/expression.py', '                        self.src2.copy())', '                        self.src2)', 'checks.C15smt', 'ind:ExprCond.copy['),
+    ('visit_chk drops the callback result', 'miasmx/expression/expression.py', '        return e_new2\n', '        return e_new\n', 'checks.C15smt', 'ind:visit_chk.wrapped'),
+    ('ExprCond.get_r forgets the condition', 'miasmx/expression/expression.py', 'out=self.cond.get_r(mem_read).union(self.src1.get_r(mem_read))', 'out=set().union(self.src1.get_r(mem_read))', 'checks.C16smt', 'ind:ExprCond.get_r['),
+    ('ExprMem.get_r asks the segment without memory reads', 'miasmx/expression/expression.py', 'r = r.union(self.segm.get_r(mem_read))', 'r = r.union(self.segm.get_r(False))', 'checks.C16smt', 'ind:ExprMem.get_r['),
+    ('ExprAff.get_w names the source', 'miasmx/expression/expression.py', '            return self.dst.get_w()\n', '            return self.src.get_w()\n', 'checks.C16smt', 'ind:ExprAff.get_w['),
 ]
 
 DRIVER = r'''
@@ -61,7 +69,8 @@ def main(argv):
         # the working tree of /repo, not only its HEAD
         subprocess.run('git -C /repo diff | git -C %s apply --allow-empty 2>/dev/null || true' % clean, shell=True)
         ok_cache = {}
-        for (label, rel, old, new, module, want) in BREAKS:
+        sel = [b for b in BREAKS if not argv or any(a in b[0] or a in b[4] for a in argv)]
+        for (label, rel, old, new, module, want) in sel:
             if module not in ok_cache:
                 obs = run_driver(module, clean)
                 failed = [o for o in obs if o[1] == 'failed']
